@@ -392,7 +392,7 @@ def run(pid, tier, seed, replay=None):
     chk.counters['self_reading_histories'] = len(selfs)
     if not thorough:
         rnd.shuffle(selfs)
-        selfs = selfs[:300] if pid == 'C02' else selfs[:1500]
+        selfs = selfs[:300] if pid == 'C02' else selfs[:900]
     focus += selfs
     # feedback declarations: a new fed-back value re-schedules its declarer (schedule.update "following feedback loop");
     # the loop goes on for as long as the value keeps changing, bounded here by the number of completions
@@ -406,18 +406,18 @@ def run(pid, tier, seed, replay=None):
     if not thorough:
         rnd.shuffle(lean)
         fails = [s for s in lean if any(e['ev'] == 'Reply' and e['out'] == 'failure' for e in s['h'])]
-        lean = fails[:1800] + [s for s in lean if not any(e['ev'] == 'Reply' and e['out'] == 'failure' for e in s['h'])][:400]
+        lean = fails[:1400] + [s for s in lean if not any(e['ev'] == 'Reply' and e['out'] == 'failure' for e in s['h'])][:300]
     # ... and a (re)load after such a pass: what the pass left behind belongs to the old load (farm.clear())
     fr = leaves(gen_focus_all(chk, 'Programs3Focus' if thorough else 'ProgramsChain', name='faultreload1t', maxrun=2, maxfault=1, maxreload=1))
     fr = [s for s in fr if [e['ev'] for e in s['h']].count('TickFault') and 'Reload' in [e['ev'] for e in s['h']] and [e['ev'] for e in s['h']].index('TickFault') < [e['ev'] for e in s['h']].index('Reload')]
     chk.counters['histories_with_a_reload_after_a_dispatch_fault'] = len(fr)
     if not thorough:
         rnd.shuffle(fr)
-        fr = fr[:300] if pid == 'C02' else fr[:1500]
+        fr = fr[:300] if pid == 'C02' else fr[:900]
     focus += fr
     if not thorough:
         rnd.shuffle(faulty)
-        faulty = [s for s in faulty if any(e['ev'] == 'TickFault' for e in s['h'])][:3500]
+        faulty = [s for s in faulty if any(e['ev'] == 'TickFault' for e in s['h'])][:2200]
         if pid == 'C02':
             # the quick tier of C02 spends its time on the data plane (end state through the real worker and store);
             # the withdrawal / fault instances address C01, C03, C04, C05 and run for C02 in the thorough tier
